@@ -35,6 +35,11 @@ def rule_oracle(rl, st, tr):
                 return ('skip', 'time within rounding of a window edge')
         # units the instant has been expressed in (created in the time step's unit, possibly converted by a load callback)
         tus = set(st.get('tus') or [st['tu']])
+        if rl.get('late'):
+            # a parameter re-expressed after the rule was built: the comparison converts, so an edge hit is within rounding
+            tus |= {sim.late_unit(rl, 'start'), sim.late_unit(rl, 'dur')}
+            if min(abs(st['t'] - s), abs(st['t'] - s - d)) <= 1e-9 * max(1.0, abs(s + d)):
+                return ('skip', 'time within rounding of a window edge')
         if abs(st['t'] - s) <= 1e-9 * max(1.0, abs(s)) and (tus != {rl['start'][1]}):
             return ('skip', 'time within rounding of a window edge')
         if abs(st['t'] - s - d) <= 1e-9 * max(1.0, abs(s + d)) and not (tus == {rl['start'][1]} and rl['start'][1] == rl['dur'][1]):
@@ -56,6 +61,8 @@ def rule_oracle(rl, st, tr):
         return ('val', 1 - (x - start) / brake) if x >= start else ('none',)
     if st.get('exact'):
         pass
+    elif rl.get('late') and abs(x - target) <= 1e-9 * sc:
+        return ('skip', 'position within rounding of the target')
     elif rl.get('eq_init') and st.get('j') == 0:
         # the target is the very quantity the shaft was started at (same number, same unit): theta <= target holds exactly
         x = target
@@ -117,6 +124,9 @@ def gen_rules(rng, spec, horizon, n_el):
             v = rng.choice([0, 1, -1, gen.dy(rng, -1, 1, 3)])
             rules.append({'type': 'const', 'start': gen.time_qty(rng, 'Time', s, True) if s > 0 else [0.0, 'sec'],
                           'dur': gen.time_qty(rng, 'TimeInterval', d, True), 'value': v})
+            if rng.random() < 0.25:
+                key = rng.choice(['start', 'dur'])
+                rules[-1]['late'] = {key: rng.choice([u for u in ('sec', 'ms', 'min', 'hour') if u != rules[-1][key][1]])}
             continue
         enc = rng.randrange(n_el)
         target = gen.in_unit(rng, 'AngularPosition', rng.uniform(-2, 8), True)
@@ -132,6 +142,11 @@ def gen_rules(rng, spec, horizon, n_el):
             ilim = rng.uniform(i0 * 1.2 + 0.01, imax * 1.3) if rng.random() < 0.9 else rng.uniform(0.001, max(i0, 0.002))
             rules.append({'type': 'limit', 'enc': enc, 'tach': rng.choice([0, 0, rng.randrange(n_el)]), 'target': target,
                           'ilim': gen.in_unit(rng, 'Current', ilim, True), **tkind})
+        if rng.random() < 0.15:
+            # a parameter object of the rule re-expressed in place after the rule has been built
+            key = rng.choice([k for k in ('target', 'brake', 'ilim') if k in rules[-1]])
+            kind = {'target': 'AngularPosition', 'brake': 'Angle', 'ilim': 'Current'}[key]
+            rules[-1]['late'] = {key: rng.choice([u for u in SI[kind] if u != rules[-1][key][1]])}
     return rules
 
 
